@@ -271,6 +271,9 @@ def main(argv=None):
     with ctx.Pool(min(workers, max(1, len(tasks))), initializer=_worker_init, initargs=(mir_path, modname, tier, seed)) as pool:
         for r in pool.imap_unordered(_run_task, tasks, chunksize=1):
             results.append(r)
+            if os.environ.get('VERIF_VERBOSE'):
+                print('  [%6.1fs] %s paths=%d obl=%d/%d q=%d %.1fs %s' % (time.time() - t0, json.dumps(r['task'])[:150], r['paths'], r['discharged'],
+                      r['obligations'], r['queries'], r['wall_s'], ('ERR ' + r['error'][:300]) if r['error'] else ''), file=sys.stderr, flush=True)
     return finish(pid, mod, tier, seed, results, t0, th, mir_s, tasks)
 
 
